@@ -480,7 +480,12 @@ func reconcileTwice(info *clusters.ClusterInfo, o *proxyv1alpha1.UpstreamCluster
 		for i := 0; i < 2; i++ {
 			c, err := remote.VerifC16ReconcileOnce(ctx, strings.ToLower(o.Name), fakeClientSets{}, clusters.VerifC16FlowControls(info),
 				func(c *proxyv1alpha1.RateLimitCondition) (*proxyv1alpha1.RateLimitCondition, error) {
-					return rl.UpdateRateLimitConditionStatus(o.Name, c.DeepCopy())
+					ret, err := rl.UpdateRateLimitConditionStatus(o.Name, c.DeepCopy())
+					if os.Getenv("VERIF_C16_DEBUG") != "" {
+						up, _ := rl.GetUpstreamStatus(o.Name)
+						fmt.Fprintf(os.Stderr, "period %d\n sent     %+v / %+v\n answer   %+v (err %v)\n upstream %+v\n", i, c.Spec.LimitItemConfigurations, c.Status.LimitItemStatuses, ret, err, up)
+					}
+					return ret, err
 				})
 			if sent == nil {
 				sent = c
@@ -492,6 +497,40 @@ func reconcileTwice(info *clusters.ClusterInfo, o *proxyv1alpha1.UpstreamCluster
 		return nil
 	})
 	return out, sent
+}
+
+// remoteAboveGlobal: after the reconcile periods no remote limiter of the gateway may be larger than the global
+// limit the object configures (whatever quota the limiter server answered, e.g. its floor of 1 at a global limit of 0)
+func remoteAboveGlobal(info *clusters.ClusterInfo, w ClusterW) string {
+	global := map[string][2]int64{}
+	for _, s := range w.Schemas {
+		switch {
+		case s.GMax != nil:
+			global[uh(s.Name)] = [2]int64{int64(*s.GMax), 0}
+		case s.GTB != nil:
+			global[uh(s.Name)] = [2]int64{int64(s.GTB.QPS), int64(s.GTB.Burst)}
+		}
+	}
+	for name, fc := range clusters.VerifC16FlowControls(info) {
+		rf := fc.FlowControl()
+		g, ok := global[name]
+		if rf == nil || !ok {
+			continue
+		}
+		f := strings.Fields(sizeOf("x", rf.String))
+		if len(f) != 4 {
+			continue
+		}
+		n, err1 := strconv.ParseInt(f[2], 10, 64)
+		b, err2 := strconv.ParseInt(f[3], 10, 64)
+		if err1 != nil || err2 != nil {
+			continue
+		}
+		if n > g[0] || (f[1] == "TokenBucket" && b > g[1]) {
+			return fmt.Sprintf("remote limiter %q is %s, the configured global limit is %v", name, strings.Join(f[1:], " "), g)
+		}
+	}
+	return ""
 }
 
 // ---- one case -------------------------------------------------------------------------------------------------
@@ -704,7 +743,14 @@ func run(c *rig.Ctx, cs Case) verdict {
 	// reconcile stage needs them equal (every name that passes validation is lower case)
 	if rout.K == "ok" && lout.K == "ok" && obj.Name == strings.ToLower(obj.Name) {
 		recOut, _ := reconcileTwice(rinfo, obj, rl)
+		over := ""
+		if accepted && recOut.K == "ok" {
+			over = remoteAboveGlobal(rinfo, cs.Cluster)
+		}
 		clusters.VerifC16Stop(rinfo)
+		if over != "" {
+			return fail("judge", "c16.remote-limit-above-global", "accepted object: after two reconcile periods "+over+": "+cs.Cluster.Summary(), over, nil)
+		}
 		// on rejected objects the order of Go's map iteration may decide between err and panic: compare ok / not ok
 		if f := stage("remote-reconcile", recOut, m.Reconcile, false); f != nil {
 			return *f
@@ -775,16 +821,34 @@ func record(c *rig.Ctx, cs Case, v verdict) {
 	c.Fail(rig.Failure{Kind: v.kind, Class: v.class, What: v.what, Case: cs, Impl: v.impl, Model: v.model})
 }
 
+// Failures are recorded shrunk. A difference between model and code on one object does not end the run: the
+// stream goes on looking for an object on which the code itself breaks the property (at most maxDiffs differences
+// are recorded, the run ends after maxJudge property failures).
+const (
+	maxDiffs = 3
+	maxJudge = 3
+)
+
+var nDiffs, nJudge int
+
 func runAndRecord(c *rig.Ctx, cs Case) verdict {
 	v := run(c, clone(cs))
-	if !v.ok {
-		small := shrink(c, cs, v.class)
-		v2 := run(c, clone(small))
-		if !v2.ok {
-			record(c, small, v2)
-		} else {
-			record(c, cs, v)
+	if v.ok {
+		return v
+	}
+	if v.kind == "diff" {
+		nDiffs++
+		if nDiffs > maxDiffs {
+			return v
 		}
+	} else {
+		nJudge++
+	}
+	small := shrink(c, cs, v.class)
+	if v2 := run(c, clone(small)); !v2.ok {
+		record(c, small, v2)
+	} else {
+		record(c, cs, v)
 	}
 	return v
 }
@@ -831,15 +895,18 @@ func main() {
 			c.Case(string(envl.Case), true, "corpus", nil)
 			c.Trace()
 			if v := run(c, clone(cs)); !v.ok {
+				if v.kind == "judge" {
+					nJudge++
+				}
 				record(c, cs, v)
 			}
 		}
 
 		g := &gen{r: c.Rng, pem: newPemPool(c.Rng)}
-		n := c.Budget(6000, 120000)
+		n := c.Budget(15000, 150000)
 		var lastAccepted *ClusterW
 		start := time.Now()
-		for i := 0; i < n && c.NFailures() < 5; i++ {
+		for i := 0; i < n && nJudge < maxJudge; i++ {
 			cs, label := g.Case()
 			if lastAccepted != nil && g.chance(0.5) {
 				p := *lastAccepted
